@@ -354,12 +354,12 @@ def install(I):
     def index_mut(I, st, a, ctx):
         return _index(I, st, a, ctx, True)
 
-    @model("slice::<impl [T]>::len", "<impl [T]>::len")
+    @model("slice::<impl [T]>::len", "<impl [T]>::len", "core::slice::len")
     def slen(I, st, a, ctx):
         sv = slice_view(I, st, a[0])
         return [(sv[2] if sv else top_int(64), st)]
 
-    @model("<impl [T]>::copy_from_slice")
+    @model("<impl [T]>::copy_from_slice", "slice::copy_from_slice")
     def cfs(I, st, a, ctx):
         d, s = slice_view(I, st, a[0]), slice_view(I, st, a[1])
         if d is None or s is None:
@@ -380,7 +380,7 @@ def install(I):
             I.write_loc(st, (d[0][0], d[0][1], d[0][2], None), I.havoc_value(old))
         return [(UNIT, st)]
 
-    @model("<impl [T]>::fill")
+    @model("<impl [T]>::fill", "slice::fill")
     def fill(I, st, a, ctx):
         d = slice_view(I, st, a[0])
         if d is None or d[3] is None:
